@@ -592,8 +592,11 @@ def do_append(X, ins):
     ixf = w.uf('ix', I, I, I)
     w.ix_used = True
     el_r = nh[S.arr(r)][ixf(S.off(r), j)]
+    # two triggers: the new element (to learn what it is) and the old element (to learn where it went)
     X.hyp(z3.ForAll([j], z3.Implies(z3.And(j >= 0, j < n + k),
-                                    el_r == z3.If(j < n, olds[ixf(so, j)], oldt[ixf(to, j - n)])), patterns=[el_r]))
+                                    el_r == z3.If(j < n, olds[ixf(so, j)], oldt[ixf(to, j - n)])), patterns=[el_r, olds[ixf(so, j)]]))
+    # ground instance for the first appended element (gives the solver the term result[len(s)] to work with)
+    X.hyp(z3.Implies(k >= 1, nh[S.arr(r)][ixf(S.off(r), n)] == oldt[ixf(to, z3.IntVal(0))]))
     X.hyp(z3.And(S.len(r) == n + k, S.cap(r) >= n + k, z3.Implies(n + k > 0, S.arr(r) != 0)))
     X.env[ins['name']] = r
 
